@@ -74,6 +74,7 @@ func (ex *Exec) satAdd(a, b *smt.Term) *smt.Term {
 func (rt *runtimeState) newTimer(d *smt.Term) *Timer {
 	t := &Timer{id: len(rt.timers), armed: true}
 	t.when = rt.ex.satAdd(rt.clock(), d)
+	rt.lastArmed = d
 	rt.timers = append(rt.timers, t)
 	if len(rt.timers) > 64 {
 		rt.ex.boundExceeded("more than 64 timers on one path")
@@ -268,6 +269,7 @@ func init() {
 		was := t.armed
 		t.armed = true
 		t.when = ex.satAdd(ex.rt.clock(), args[1].(*smt.Term))
+		ex.rt.lastArmed = args[1].(*smt.Term)
 		return ex.ctx.Bool(was)
 	})
 }
